@@ -8,6 +8,7 @@
 
   Import-free (compiled into the native driver).
 -/
+import CogentModel.Spec.PySlice
 namespace CogentModel.TableOps
 
 /-! ## cells -/
@@ -147,6 +148,11 @@ def setOfList {κ} [DecidableEq κ] (acc : List κ) : List κ → List κ
   | [] => acc
   | k :: ks => setOfList (setInsert k acc) ks
 
+/-- `numpy.unique(col, return_inverse=True)[1]`: the rank of `x` among the distinct values `D` of its
+column = number of distinct values strictly below it -/
+def denseRank {κ} [DecidableEq κ] (le : κ → κ → Bool) (D : List κ) (x : κ) : Nat :=
+  (D.filter fun z => le z x && !(decide (z = x))).length
+
 def distinctCols {κ} [DecidableEq κ] (dflt : α) (key : α → κ) (sel : List Nat) (cols : List (List α)) :
     List (List κ) :=
   setOfList [] ((rowsOf dflt (selectCols sel cols)).map (List.map key))
@@ -220,10 +226,6 @@ def lexLe : List SKey → List SKey → Bool
   | _ :: _, [] => false
   | a :: as, b :: bs => if a = b then lexLe as bs else SKey.le a b
 
-/-- `_reverse_str`: `x.translate(_reversed_chrs)` maps code point c < 256 to 255 - c and leaves
-the others alone -/
-def reverseStr (s : List Nat) : List Nat := s.map fun c => if c < 256 then 255 - c else c
-
 /-- `_reverse_num`: `x * -1` -/
 def reverseNum (q : Rat) : Rat := q * (-1)
 
@@ -241,6 +243,8 @@ structure Table where
   header : List String
   cols : List (List Cell)
   title : String := ""
+  /-- `index_name`: a column with unique values, always displayed first (`Columns.order`) -/
+  index : Option String := none
   deriving Repr
 
 def Table.idxOf (t : Table) (name : String) : Except String Nat :=
@@ -254,6 +258,31 @@ def dfl : Cell := .missing
 
 def Table.rows (t : Table) : List (List Cell) := rowsOf dfl t.cols
 
+def Table.name (t : Table) (j : Nat) : String := t.header.getD j ""
+
+/-- `Columns.order`: the index column goes first -/
+def Table.norm (t : Table) : Table :=
+  match t.index with
+  | none => t
+  | some k =>
+    match t.header.idxOf? k with
+    | none => t
+    | some i =>
+      let others := (List.range t.header.length).filter (· ≠ i)
+      { t with header := k :: others.map t.name, cols := t.cols.getD i [] :: selectCols others t.cols }
+
+/-- what reading `.index_name` (done by `to_list()`, `__getitem__`, …) does to a table that was handed an
+`index_name` through its constructor attributes: the column must exist and hold unique values -/
+def Table.observe (t : Table) : Except String Table :=
+  match t.index with
+  | none => .ok t
+  | some k =>
+    match t.header.idxOf? k with
+    | none => .error "ValueError"
+    | some i =>
+      let col := (t.cols.getD i []).map Cell.key
+      if (setOfList [] col).length ≠ col.length then .error "ValueError" else .ok t.norm
+
 /-- numpy dtype class of a column, as far as `sorted` cares -/
 inductive ColKind where
   | num | str | bool | obj
@@ -265,37 +294,66 @@ def colKind (c : List Cell) : ColKind :=
   else if c.all (fun x => match x with | .bool _ => true | _ => false) then .bool
   else .obj
 
-/-- `inner_join` with explicit key column names (already lists) -/
+/-- `inner_join` with explicit key column names (already lists); `self`'s index_name is handed on -/
 def Table.innerJoin (t u : Table) (ks ko : List String) (pre : String := "right_") : Except String Table := do
   let kS ← t.idxsOf ks
   let kO ← u.idxsOf ko
   if kS.length ≠ kO.length then throw "RuntimeError"
   -- output_mask = [c for c in other.columns if c not in columns_other]
-  let keep := (List.range u.header.length).filter fun j => !(ko.contains (u.header.getD j ""))
+  let keep := (List.range u.header.length).filter fun j => !(ko.contains (u.name j))
   let cols := innerJoinCols dfl Cell.key kS kO keep t.cols u.cols
-  pure { header := t.header ++ keep.map (fun j => pre ++ u.header.getD j ""), cols := cols }
+  pure { header := t.header ++ keep.map (fun j => pre ++ u.name j), cols := cols, index := t.index }
 
-/-- `joined(other)` / `inner_join(use_index=False)` without columns: "natural" join as coded —
-the shared names in *self* order are paired positionally with the shared names in *other* order -/
+/-- `joined(other)` / `inner_join(use_index=False)` without columns: the natural join — the shared
+names, in `self`'s order, are the key columns of both tables -/
 def Table.naturalKeys (t u : Table) : List String × List String :=
-  (t.header.filter (u.header.contains ·), u.header.filter (t.header.contains ·))
+  let shared := t.header.filter (u.header.contains ·)
+  (shared, shared)
 
-def Table.crossJoin (t u : Table) (pre : String := "right_") : Except String Table :=
-  -- `self_selected, other_selected = list(zip(*product(...)))` cannot be unpacked when the product is empty
-  if nrows t.cols = 0 ∨ nrows u.cols = 0 then .error "ValueError"
-  else .ok { header := t.header ++ u.header.map (pre ++ ·), cols := crossJoinCols dfl t.cols u.cols }
+/-- `cross_join`: drops title and index_name -/
+def Table.crossJoin (t u : Table) (pre : String := "right_") : Table :=
+  { header := t.header ++ u.header.map (pre ++ ·), cols := crossJoinCols dfl t.cols u.cols }
 
-def Table.getColumns (t : Table) (names : List String) : Except String Table := do
+/-- `table[:, columns]` (`Table.__getitem__`): zero-length columns are skipped (`continue`), the index_name
+survives if its column is selected -/
+def Table.takeCols (t : Table) (names : List String) : Except String Table := do
   let sel ← t.idxsOf names
-  -- `Table.__getitem__`: `if len(self.columns[c]) == 0: continue` — a table without rows loses its columns
   if nrows t.cols = 0 then pure { header := [], cols := [], title := t.title }
-  else pure { header := names, cols := selectCols sel t.cols, title := t.title }
+  else
+    let idx := match t.index with
+      | some k => if names.contains k then some k else none
+      | none => none
+    pure { header := names, cols := selectCols sel t.cols, title := t.title, index := idx }
+
+/-- `get_columns(columns, with_index)` -/
+def Table.getColumns (t : Table) (names : List String) (withIndex : Bool := true) : Except String Table :=
+  match t.index with
+  | some k => if withIndex then t.takeCols (k :: names.filter (· ≠ k)) else t.takeCols names
+  | none => t.takeCols names
 
 def Table.filtered (t : Table) (p : List Cell → Bool) (names : List String) : Except String Table := do
   if nrows t.cols = 0 then pure t      -- "no point filtering if no rows": returns self before looking at columns
   else
     let sel ← t.idxsOf names
     pure { t with cols := filteredCols dfl p sel t.cols }
+
+/-- `get_row_indices(callback, columns, negate)`: the boolean mask -/
+def Table.rowIndices (t : Table) (p : List Cell → Bool) (names : List String) (negate : Bool) :
+    Except String (List Bool) := do
+  let sel ← t.idxsOf names
+  pure ((List.range (nrows t.cols)).map fun i => p (rowAt dfl (selectCols sel t.cols) i) != negate)
+
+/-- `count(callback, columns)` -/
+def Table.count (t : Table) (p : List Cell → Bool) (names : List String) : Except String Nat := do
+  if nrows t.cols = 0 then pure 0
+  else
+    let sel ← t.idxsOf names
+    pure (filterIdx dfl p sel t.cols).length
+
+/-- `filtered_by_column(callback)`: the columns the callback accepts; attributes (index_name) handed on -/
+def Table.filteredByColumn (t : Table) (p : List Cell → Bool) : Table :=
+  let keep := (List.range t.header.length).filter fun j => p (t.cols.getD j [])
+  { t with header := keep.map t.name, cols := selectCols keep t.cols }
 
 def Table.countUnique (t : Table) (names : List String) : Except String (List (List Key × Nat)) := do
   let sel ← t.idxsOf names
@@ -310,11 +368,14 @@ def Table.withNewColumn (t : Table) (newName : String) (f : List Cell → Cell) 
   let sel ← t.idxsOf names
   -- the callback is evaluated on the *original* table; a column called `newName` is dropped
   let newCol := (List.range (nrows t.cols)).map fun i => f (rowAt dfl (selectCols sel t.cols) i)
-  let keepPos := (List.range t.header.length).filter fun j => t.header.getD j "" ≠ newName
-  pure { header := keepPos.map (fun j => t.header.getD j "") ++ [newName],
-         cols := selectCols keepPos t.cols ++ [newCol], title := t.title }
+  let keepPos := (List.range t.header.length).filter fun j => t.name j ≠ newName
+  let header := keepPos.map t.name ++ [newName]
+  let idx := match t.index with
+    | some k => if header.contains k then some k else none
+    | none => none
+  pure { header := header, cols := selectCols keepPos t.cols ++ [newCol], title := t.title, index := idx }
 
-/-- `appended(new_column, *tables)`: columns matched by name, `self`'s order -/
+/-- `appended(new_column, *tables)`: columns matched by name, `self`'s order and attributes -/
 def Table.appended (t : Table) (newCol : Option String) (others : List Table) : Except String Table := do
   let all := t :: others
   let aligned ← all.mapM fun u => do
@@ -323,11 +384,11 @@ def Table.appended (t : Table) (newCol : Option String) (others : List Table) : 
     pure (selectCols sel u.cols)
   let body := appendCols aligned
   match newCol with
-  | none => pure { header := t.header, cols := body }
+  | none => pure { header := t.header, cols := body, index := t.index }
   | some n =>
     if t.header.contains n then throw "AssertionError"
     pure { header := n :: t.header,
-           cols := titleCol (all.map fun u => Cell.str u.title) aligned :: body }
+           cols := titleCol (all.map fun u => Cell.str u.title) aligned :: body, index := t.index }
 
 /-- `str(value)` of a cell used as a column name by `transposed` -/
 def Cell.pyStr : Cell → Option String
@@ -347,7 +408,7 @@ def Table.transposed (t : Table) (newName : String) (selectAs : Option String) :
     | some s => pure s
     | none => throw "unmodelled"
   pure { header := newName :: names,
-         cols := (others.map fun j => Cell.str (t.header.getD j "")) ::
+         cols := (others.map fun j => Cell.str (t.name j)) ::
                  transposeCols dfl (selectCols others t.cols) }
 
 /-- the column list logic at the top of `sorted` -/
@@ -359,27 +420,34 @@ def sortColumns (header : List String) (columns : Option (List String)) (reverse
     columns ++ reverse.filter (fun c => !columns.contains c)
   else columns
 
-/-- the reversal transform applied to one cell of a reversed key column of kind `k`
-(`_reverse_num` for int/float dtypes, else `_reverse_str`, which needs `.translate`) -/
-def reverseCell (k : ColKind) (c : Cell) : Except String SKey :=
+/-- the key field of a cell in a reversed key column: `_reverse_num` for int/float dtypes; every other
+dtype is replaced by its negated rank among the distinct values `uniq` of the column
+(`numpy.unique(..., return_inverse=True)`) -/
+def reverseCell (k : ColKind) (uniq : List SKey) (c : Cell) : Except String SKey :=
   match k, c with
   | .num, .int n => .ok (.num (reverseNum n))
   | .num, .float q => .ok (.num (reverseNum q))
   | .num, _ => .error "TypeError"
-  | _, .str s => .ok (.str (reverseStr (s.toList.map Char.toNat)))
-  | _, _ => .error "AttributeError"
+  | _, c =>
+    match c.skey with
+    | some f => .ok (.num (-((denseRank SKey.le uniq f : Nat) : Rat)))
+    | none => .error "TypeError"
 
 /-- transformed key field of a cell -/
-def keyField (k : ColKind) (rev : Bool) (c : Cell) : Except String SKey :=
-  if rev then reverseCell k c
+def keyField (k : ColKind) (rev : Bool) (uniq : List SKey) (c : Cell) : Except String SKey :=
+  if rev then reverseCell k uniq c
   else match c.skey with
     | some f => .ok f
     | none => .error "TypeError"
 
+/-- `numpy.unique` of a column, as key fields -/
+def uniqOf (col : List Cell) : List SKey := setOfList [] (col.filterMap Cell.skey)
+
 /-- the record of transformed key fields of one row (total: validated beforehand) -/
-def sortKeyOf (sel : List Nat) (kinds : List ColKind) (revs : List Bool) (r : List Cell) : List SKey :=
-  ((proj dfl sel r).zip (kinds.zip revs)).map fun (c, k, rv) =>
-    match keyField k rv c with
+def sortKeyOf (sel : List Nat) (kinds : List ColKind) (revs : List Bool) (uniqs : List (List SKey))
+    (r : List Cell) : List SKey :=
+  ((proj dfl sel r).zip (kinds.zip (revs.zip uniqs))).map fun (c, k, rv, u) =>
+    match keyField k rv u c with
     | .ok f => f
     | .error _ => .bool false
 
@@ -387,13 +455,13 @@ def Table.sorted (t : Table) (columns : Option (List String)) (reverse : List St
   let cols := sortColumns t.header columns reverse
   let sel ← t.idxsOf cols
   let n := nrows t.cols
-  -- `for c in reverse: index = columns.index(c); data[:, index] = vectorize(func)(data[:, index])`
+  -- `for c in reverse: index = columns.index(c); …`
   for c in reverse do
     if !cols.contains c then throw "ValueError"
-    if n = 0 then throw "ValueError"                 -- numpy.vectorize on a size-0 input
     let col := t.cols.getD ((t.header.idxOf? c).getD 0) []
-    for x in col do
-      let _ ← reverseCell (colKind col) x
+    if colKind col = .num then
+      if n = 0 then throw "ValueError"               -- numpy.vectorize(_reverse_num) on a size-0 input
+    else if colKind col = .obj ∧ n ≥ 2 then throw "TypeError"   -- numpy.unique sorts the object array
   if n ≤ 1 then pure t                                -- nothing is compared
   else
     let kinds := sel.map fun j => colKind (t.cols.getD j [])
@@ -401,10 +469,69 @@ def Table.sorted (t : Table) (columns : Option (List String)) (reverse : List St
     for k in kinds do
       if k = .obj then throw "TypeError"
     let revs := cols.map (reverse.contains ·)
-    -- every key field must exist (no missing values among the keys) ...
-    let _ ← (rowsOf dfl (selectCols sel t.cols)).mapM fun r =>
-      (r.zip (kinds.zip revs)).mapM fun (c, k, rv) => keyField k rv c
-    -- ... then `argsort` on the records of transformed key fields, and `col[indices]` for every column
-    pure { t with cols := sortedCols dfl lexLe (sortKeyOf sel kinds revs) t.cols }
+    let uniqs := sel.map fun j => uniqOf (t.cols.getD j [])
+    -- `argsort` on the records of transformed key fields, and `col[indices]` for every column
+    pure { t with cols := sortedCols dfl lexLe (sortKeyOf sel kinds revs uniqs) t.cols }
+
+/-! ### `table[rows, columns]` -/
+
+/-- the row part of an index expression -/
+inductive RowSel where
+  | all
+  | int (i : Int)
+  | slice (a b : Option Int) (c : Int)
+  | ints (l : List Int)
+  | mask (m : List Bool)
+
+/-- the column part: names (already resolved from str / int / slice / bool list by `_get_keys_`) -/
+def pyIndex (n : Nat) (i : Int) : Except String Nat :=
+  if 0 ≤ i ∧ i < n then .ok i.toNat
+  else if i < 0 ∧ -(n : Int) ≤ i then .ok (i + n).toNat
+  else .error "IndexError"
+
+def maskIdx (m : List Bool) : List Nat := (List.range m.length).filter fun i => m.getD i false
+
+/-- the column part of an index expression, resolved by `Columns._get_keys_` -/
+inductive ColSel where
+  | all
+  | names (l : List String)
+  | int (j : Int)
+  | ints (l : List Int)
+  | slice (a b : Option Int) (c : Int)
+  | bools (m : List Bool)
+
+def ColSel.toNames (header : List String) : ColSel → Except String (List String)
+  | .all => .ok header
+  | .names l => .ok l
+  | .int j => do
+    let i ← (pyIndex header.length j).mapError fun _ => "KeyError"
+    pure [header.getD i ""]
+  | .ints l => l.mapM fun j => do
+    let i ← (pyIndex header.length j).mapError fun _ => "KeyError"
+    pure (header.getD i "")
+  | .slice a b c => .ok ((PySlice.sliceIdx header.length a b c).map fun i => header.getD i.toNat "")
+  | .bools m => if m.length = header.length then .ok ((maskIdx m).map fun i => header.getD i "")
+                else .error "KeyError"
+
+def RowSel.toIdx (n : Nat) : RowSel → Except String (List Nat)
+  | .all => .ok (List.range n)
+  | .int i => do pure [← pyIndex n i]
+  | .slice a b c => .ok ((PySlice.sliceIdx n a b c).map Int.toNat)
+  | .ints l => l.mapM (pyIndex n)
+  | .mask m => if m.length = n then .ok (maskIdx m) else .error "IndexError"
+
+/-- `table[rows, columns]` with the columns already resolved to names -/
+def Table.getItem (t : Table) (rows : RowSel) (names : List String) : Except String Table := do
+  let sel ← t.idxsOf names
+  let n := nrows t.cols
+  if names = [] then pure { header := [], cols := [], title := t.title }   -- no column is ever indexed
+  else
+  let idx ← rows.toIdx n
+  if n = 0 then pure { header := [], cols := [], title := t.title }
+  else
+    let ix := match t.index with
+      | some k => if names.contains k then some k else none
+      | none => none
+    pure { header := names, cols := takeRows dfl idx (selectCols sel t.cols), title := t.title, index := ix }
 
 end CogentModel.TableOps
